@@ -55,17 +55,25 @@ SelectsStopCh == CodeShape # "pre-ada0bc0"                    \* ada0bc0
 FFCtxFix == CodeShape \in {"current", "pre-af9523f"}          \* 6258232
 SDWaitFix == CodeShape \in {"current", "pre-6258232"}         \* af9523f
 
+(* the initial state as a record (Trace_BSPImpl.tla re-installs it between the scenarios of one trace file) *)
+I0 == [queue |-> <<>>, batch |-> <<>>, mutex |-> "none", dropped |-> 0, stopped |-> FALSE, stopCh |-> FALSE,
+       flushed |-> [f \in Flushers |-> FALSE],
+       pc |-> [x \in Procs |-> IF x = "w" THEN "select" ELSE "idle"],
+       pidx |-> [p \in Producers |-> 1], wret |-> "select", wtmp |-> <<>>,
+       hx |-> [f \in Flushers |-> "none"], hres |-> [f \in Flushers |-> ""], hs |-> "none",
+       expired |-> {}, err |-> [c \in Callers |-> ""],
+       mon |-> [inflight |-> <<>>, handed |-> [id \in Ids |-> 0], droppedIds |-> {}, ignoredIds |-> {}, abandonedIds |-> {},
+                returnedEnd |-> {}, raced |-> {}, snapF |-> [f \in Flushers |-> {}], snapS |-> [s \in Stoppers |-> {}],
+                sdCalled |-> FALSE, shutRet |-> FALSE, nilRet |-> {}, sdRetErr |-> FALSE, expShut |-> FALSE,
+                early |-> [f \in Flushers |-> FALSE], nomarker |-> [f \in Flushers |-> FALSE], bad |-> {}]]
 Init ==
-  /\ queue = <<>> /\ batch = <<>> /\ mutex = "none" /\ dropped = 0
-  /\ stopped = FALSE /\ stopCh = FALSE /\ flushed = [f \in Flushers |-> FALSE]
-  /\ pc = [x \in Procs |-> IF x = "w" THEN "select" ELSE "idle"]
-  /\ pidx = [p \in Producers |-> 1] /\ wret = "select" /\ wtmp = <<>>
-  /\ hx = [f \in Flushers |-> "none"] /\ hres = [f \in Flushers |-> ""] /\ hs = "none"
-  /\ expired = {} /\ err = [c \in Callers |-> ""]
-  /\ mon = [inflight |-> <<>>, handed |-> [id \in Ids |-> 0], droppedIds |-> {}, ignoredIds |-> {}, abandonedIds |-> {},
-            returnedEnd |-> {}, raced |-> {}, snapF |-> [f \in Flushers |-> {}], snapS |-> [s \in Stoppers |-> {}],
-            sdCalled |-> FALSE, shutRet |-> FALSE, nilRet |-> {}, sdRetErr |-> FALSE, expShut |-> FALSE,
-            early |-> [f \in Flushers |-> FALSE], nomarker |-> [f \in Flushers |-> FALSE], bad |-> {}]
+  /\ queue = I0.queue /\ batch = I0.batch /\ mutex = I0.mutex /\ dropped = I0.dropped
+  /\ stopped = I0.stopped /\ stopCh = I0.stopCh /\ flushed = I0.flushed
+  /\ pc = I0.pc
+  /\ pidx = I0.pidx /\ wret = I0.wret /\ wtmp = I0.wtmp
+  /\ hx = I0.hx /\ hres = I0.hres /\ hs = I0.hs
+  /\ expired = I0.expired /\ err = I0.err
+  /\ mon = I0.mon
 
 Go(x, l) == pc' = [pc EXCEPT ![x] = l]
 
